@@ -20,7 +20,8 @@ LEVEL_TEXT = ('Partial. Coq theorems over R about the hand model of trust_region
               'Structural tie (round 3): the syntax tree of trust_region_minimize / is_converged / is_on_boundary is re-extracted from the source on every run (gen/CFG_TR.v) and given a meaning by an interpreter of the Python subset (model/M_C01_CFG.v); '
               'theorem C01_inner_loop_is_the_extracted_source: for every Num T, all oracles, settings, local-variable values and pass budgets, running the extracted `while not happyAboutTrSize` loop IS the hand model inner loop '
               '(same exit, returned point, flag, callback/update_precond sequence, next state): order convergence-test/acceptance-test, rho and its re-signing, `not rho >= eta2`, radius updates, willAccept, preconditioner refresh, two-stage too-small exit. '
-              'The prologue, Cauchy-point block, outer for and max-iterations exit of the extracted tree are compared with the hand model only by execution (bit-for-bit on every generated case), not proved. '
+              'Second pass: C01_outer_loop_is_the_extracted_source: for every Num T, all oracles, settings, local-variable values, iteration counts and while budgets, n passes of the extracted `for` body (Cauchy-point block, CG call / boundary short-cut, cumulativeCgIters, the while) followed by the extracted max-iterations exit ARE the hand model outer n (propose + inner, then EMaxIters), by induction. '
+              'C01_extracted_solver_is_the_hand_model: the WHOLE extracted trust_region_minimize called with a callback (incl. the initial convergence test), interpreted, = the hand model (point, flag, callback/update_precond sequence), all inputs. C01_driver_success_means_small_gradient_under_requested_parameters_extracted_solver: the driver success theorem with the interpreted extracted solver (solver_tree) as callee, with a callback. The callback=None variant of the extracted solver is compared only by execution. '
               'Finding F1 (converged exit can go uphill) proved for the binary64 instance of the model by vm_compute and replayed on the code. '
               'Driver (round 4): model/M_C01_Drv.v interprets the extracted syntax tree of nonlinear_equation_solve with a meaning for the store objective.p = p (oracles are functions of the parameter current at call time, any parameter type; update_precond remembers its build-time parameter; warm start = arbitrary read-only oracle; Python argument binding incl. the default solver_algorithm read off the tree). '
               'Theorems, for every number type / parameter type / warm-start oracle / scaling / solver / callback-or-None / useWarmStart / updatePrecond / entry state: C01_driver_is_the_extracted_source (interpreting the extracted tree = hand-written closed form: result, objective.p and preconditioner state afterwards, whole effect sequence), '
@@ -29,11 +30,11 @@ LEVEL_TEXT = ('Partial. Coq theorems over R about the hand model of trust_region
               'NaN rejection (round 4): C01_nan_change_is_rejected_and_shrinks (any number type whose isnan obeys the IEEE laws for -, unary -, / and the comparisons: NaN measured change => not accepted and radius * t1, all re-signing / zero-denominator branches), the laws proved for binary64 from Coq\'s FloatAxioms, hence '
               'C01_nan_change_is_rejected_and_shrinks_binary64 and C01_nan_valued_point_is_never_accepted_binary64 (default mode, arbitrary float oracles: no Accept event of any run carries a NaN objective value). '
               'Not proved (tested by L2 only): success on strictly convex problems (dedicated stream: default settings, 1..40 unknowns, condition numbers 1..1e3, three preconditioners, against an independent Newton reference); the rest of finiteness (no overflow in the arithmetic that forms the trial point, +inf values, incremental mode, NaN value at the converged exit = F1 mechanism); the +0.0 model-objective corner; '
-              'the driver\'s success theorem with the solver\'s OWN extracted tree as callee (needs the outer-loop tie; both solvers are executed against each other and the implementation, stream driver_model); exceptions raised by the solver / warm start.')
+              'the driver\'s success theorem with the solver\'s OWN extracted tree as callee (proved in the second pass for calls with a callback; the callback=None variant is still only executed; both solvers are executed against each other and the implementation, stream driver_model); exceptions raised by the solver / warm start.')
 TECHNIQUE = 'Coq proof (Reals, lra/nra) on a hand-written state-machine model; vm_compute/PrimFloat correspondence on seeded polynomial objectives'
 GEN = ['EquationSolver', 'CFG_TR']
-TARGETS = ['model/M_C06_Vec.vo', 'model/M_C06_CG.vo', 'model/M_C01_TR.vo', 'model/M_C01_CFG.vo', 'gen/CFG_TR.vo', 'proofs/L_C06_Vec.vo', 'proofs/L_C01.vo', 'proofs/L_C01_F1.vo', 'proofs/L_C01_CFG.vo', 'model/M_C01_Drv.vo', 'proofs/L_C01_Drv.vo', 'proofs/L_C01_NaN.vo']
-COQ_FILES = ['base/Num.v', 'model/M_C06_Vec.v', 'model/M_C06_CG.v', 'model/M_C01_TR.v', 'proofs/L_C06_Vec.v', 'proofs/L_C01.v', 'proofs/L_C01_F1.v', 'model/M_C01_CFG.v', 'proofs/L_C01_CFG.v', 'model/M_C01_Drv.v', 'proofs/L_C01_Drv.v', 'proofs/L_C01_NaN.v', 'props/P_C01.v']
+TARGETS = ['model/M_C06_Vec.vo', 'model/M_C06_CG.vo', 'model/M_C01_TR.vo', 'model/M_C01_CFG.vo', 'gen/CFG_TR.vo', 'proofs/L_C06_Vec.vo', 'proofs/L_C01.vo', 'proofs/L_C01_F1.vo', 'proofs/L_C01_CFG.vo', 'model/M_C01_Drv.vo', 'proofs/L_C01_Drv.vo', 'proofs/L_C01_NaN.vo', 'proofs/L_C01_Outer.vo']
+COQ_FILES = ['base/Num.v', 'model/M_C06_Vec.v', 'model/M_C06_CG.v', 'model/M_C01_TR.v', 'proofs/L_C06_Vec.v', 'proofs/L_C01.v', 'proofs/L_C01_F1.v', 'model/M_C01_CFG.v', 'proofs/L_C01_CFG.v', 'model/M_C01_Drv.v', 'proofs/L_C01_Drv.v', 'proofs/L_C01_NaN.v', 'proofs/L_C01_Outer.v', 'props/P_C01.v']
 TRUSTED = ['Coq 8.16.1 kernel + vm_compute (no native_compute)',
            'hand model model/M_C01_TR.v (uses the C06 CG/dogleg model and the generated scalar kernels): its inner loop is proved equal to the interpreted syntax tree of the source; the rest (initial test, Cauchy block, outer loop) is tied by the correspondence: event kinds/order, flags, counts exact; points within 1e-7 relative',
            'tools/vlib/extract_tr.py (purely syntactic AST -> IR translation, fail closed; drops only docstrings, pass and print / print_banner / print_min_banner statements) and the interpreter model/M_C01_CFG.v as the meaning of the Python subset (late-binding closures, float quotients compared IEEE-like, dogleg_step / solve_trust_region_minimization / numpy norm, sqrt as primitives = the C06 models)',
